@@ -12,7 +12,7 @@ from ..core.outcome import Violation
 
 NAME = "imusim"
 SIM_UNIT = "IMU frames"
-BUDGET = {"quick": {"runs": 1600, "wall": 80}, "thorough": {"runs": 60000, "wall": 1200}}
+BUDGET = {"quick": {"runs": 2200, "wall": 80}, "thorough": {"runs": 60000, "wall": 1200}}
 SHRINK_LISTS = ("ops",)
 PROBES = {"C16": ["explicit-init-state", "reset=True-repeat", "chunk-of-one", "all-singletons", "F-not-pow2-minus-1", "rank-FH", "rank-H", "known-rot",
                   "integrated-rot+gravity", "zero-gravity", "float32", "batch>1", "nonidentity-init"]}
